@@ -81,6 +81,9 @@ def compare_to_reference(case, ref, obs, config):
                 if obs["status"] == "pending" else "execution blocks (watchdog)")
     if obs["status"] not in ("ok", "failed"):
         return ("bad-result-type", obs["status"])
+    if obs.get("raised_at_call"):
+        return ("raised-at-call", "on a deferred runtime the unexpected exception (%s) is raised out of process_graphql_query itself: no Future / "
+                "awaitable is returned whose failure the caller could observe" % obs.get("exc"))
     if ref["status"] == "failed":
         if obs["status"] != "failed":
             return ("unexpected-lost", "reference fails with an unexpected exception, %s returns a result" % config)
